@@ -126,6 +126,7 @@ func newEngine(l *Loaded) *Engine {
 	e.globalsRead = map[string]bool{}
 	e.opaqueUsed = map[string]bool{}
 	e.lemmasUsed = map[string]bool{}
+	e.seqArrays = map[string][]*Term{}
 	e.globalWriters = scanGlobalWriters(l)
 	return e
 }
@@ -357,7 +358,14 @@ func mergeContracts(dst, src *Contract) {
 	dst.Honest = append(dst.Honest, src.Honest...)
 	dst.Modifies = append(dst.Modifies, src.Modifies...)
 	dst.Uses = append(dst.Uses, src.Uses...)
+	dst.UsesAtRet = append(dst.UsesAtRet, src.UsesAtRet...)
 	dst.Ghosts = append(dst.Ghosts, src.Ghosts...)
+	for k, v := range src.LoopUse {
+		if dst.LoopUse == nil {
+			dst.LoopUse = map[int][]Clause{}
+		}
+		dst.LoopUse[k] = append(dst.LoopUse[k], v...)
+	}
 	for k, v := range src.LoopInv {
 		dst.LoopInv[k] = append(dst.LoopInv[k], v...)
 	}
